@@ -24,7 +24,9 @@ func TestMain(m *testing.M) {
 			"each expiry of an outstanding request yields exactly one byte-identical retransmission until MaxRetrans is reached, then none and the entry disappears; a matching response from the right peer removes the entry and later expiries do nothing; "+
 			"non-matching responses change nothing; at the end the transmit-transaction table is empty. Transactions are addressed by the key the server lists for the request whose cached bytes equal the datagram received. "+
 			"non-trivial = the counter crossed 2^24 (or 2^32) with a request outstanding on each side of the boundary, or a request was retired by a response after >= 1 retry; distinct by (config, history)",
-		"timer expiry is injected through the public NotifyTransTimeout entry point; the counter is positioned by an in-package hook of the scratch build",
+		"in the model-based histories timer expiry is injected through the public NotifyTransTimeout entry point; the counter is positioned by an in-package hook of the scratch build. "+
+			"Part (b) uses real timers (30 / 60 ms, MaxRetrans 0..3): 1-5 requests outstanding, the event loop parked inside a data-plane call of an unrelated Establishment for 20-250 % of the timeout, responses for a drawn subset sent meanwhile, loop released - "+
+			"responses and already-fired expiries are then served in the order the loop's select picks; oracle: copies byte-identical, never more than MaxRetrans, and no copy of an answered request once the loop has served its response (barrier), watched for MaxRetrans+2 timeouts",
 		"responses carry a non-zero SEID (SEID 0 is C01/C04/C05's subject); a response of another message type with matching peer and sequence is not generated")
 	vcore.Main(m)
 }
@@ -52,8 +54,8 @@ type out struct {
 }
 
 type stats struct {
-	crossWithBoth   bool
-	retiredAfterRetry bool
+	crossWithBoth                bool
+	retiredAfterRetry            bool
 	reports, expiries, responses int
 }
 
@@ -377,10 +379,21 @@ func report(t vcore.Failer, c Case, v *vcore.Violation) {
 func TestC09(t *testing.T) {
 	files, explicit := vcore.ReplayFiles()
 	for _, f := range files {
-		var c Case
-		if err := vcore.LoadReplayCase(f, &c); err != nil {
+		var w struct {
+			Case
+			Real *RCase `json:"real"`
+		}
+		if err := vcore.LoadReplayCase(f, &w); err != nil {
 			t.Fatalf("replay %s: %v", f, err)
 		}
+		if w.Real != nil {
+			v, s := runReal(*w.Real)
+			accountReal(*w.Real, s)
+			vcore.E.Class("replayed")
+			vcore.Report(t, v, map[string]any{"real": w.Real})
+			continue
+		}
+		c := w.Case
 		v, s := run(c)
 		account(c, s)
 		vcore.E.Class("replayed")
@@ -389,6 +402,13 @@ func TestC09(t *testing.T) {
 	if explicit {
 		return
 	}
+	// (b) real timers, loop parked while timers fire and responses arrive
+	vcore.Check(t, vcore.N(25, 120), func(rt *rapid.T) {
+		c := genReal(rt)
+		v, s := runReal(c)
+		accountReal(c, s)
+		vcore.Report(rt, v, map[string]any{"real": c})
+	})
 	starts := []uint32{0, 1<<24 - 3, 1<<24 - 2, 1<<24 - 1, 1 << 24, 1<<24 + 1, 1<<24 + 2, 1 << 31, 1<<32 - 2, 1<<32 - 1}
 	vcore.Check(t, vcore.N(1200, 4000), func(rt *rapid.T) {
 		c := Case{
